@@ -273,6 +273,19 @@ theorem raises_precursorPVal (p : Precursor) : raises (precursorPVal p) = none :
       exact raises_colEntry _ _ _ (raises_colPVal c)))
   simp [precursorPVal, raises, raisesKvs, h1, h2]
 
+/-- `tablePVal` is `tablePValObs` at the element types the model assumes for each dtype (`valPVal`); the harness
+    sends the observed element types through `tablePValObs` on every case, so the assumption is checked -/
+theorem tablePVal_obs (t : TableVal) :
+    tablePVal t = tablePValObs t.name t.destinations (t.columns.map (fun c => (c.name, c.unit, c.values.map valPVal))) := by
+  simp [tablePVal, tablePValObs, List.map_map, Function.comp_def]
+
+/-- `precursorPVal` is `precursorPValObs` at the array types the model assumes per column kind (`colPVal`); the
+    harness sends the observed arrays through `precursorPValObs` on every reader case -/
+theorem precursorPVal_obs (p : Precursor) :
+    precursorPVal p = precursorPValObs p.name
+      ((p.names.zip (p.units.zip p.columns)).map (fun nuc => (nuc.1, nuc.2.1, colPVal nuc.2.2))) p.destinations := by
+  simp [precursorPVal, precursorPValObs, precursorColumns, List.map_map, Function.comp_def]
+
 /-- `table_to_json_data` never raises on a table value -/
 theorem ofTable_total (t : TableVal) : ofTable t = .ok (toJson (tablePVal t)) := by
   simp [ofTable, toJsonSerializable, raises_tablePVal]
@@ -618,9 +631,16 @@ theorem transposeN_zipStar (cols : List (List Cell)) (m : Nat) (hne : cols ≠ [
 
 
 namespace Spec
-def isText : Val → Bool | .text _ => true | _ => false
+/-- a text that does not end in a NUL character (numpy's `<U` arrays drop trailing NULs: `"a\x00"` comes back as
+    `"a"`, Reader `textCell`) -/
+def isText : Val → Bool | .text s => s.getLast? != some '\x00' | _ => false
 def isBool : Val → Bool | .bool _ => true | _ => false
-def isNumber : Val → Bool | .num _ => true | .int _ => true | _ => false
+/-- a float, or an integer of magnitude below 2^53 — the integers every one of which is a float64 exactly, so
+    that "the values are reproduced" (an integer comes back as the float of the same value) is meaningful -/
+def isNumber : Val → Bool
+  | .num _ => true
+  | .int i => decide (-9007199254740992 < i ∧ i < 9007199254740992)
+  | _ => false
 def isStamp : Val → Bool | .dt t => t != "NaT".toList | _ => false
 def textOf : Val → Str | .text s => s | _ => []
 def boolOf : Val → Bool | .bool b => b | _ => false
@@ -658,8 +678,9 @@ def intOK (fi : Int → Str) : Val → Bool
 def IntCol (fi : Int → Str) (c : Column) : Prop := ∀ v ∈ c.values, intOK fi v = true
 
 theorem parseWith_all_some {α β : Type} (cellFn : Cell → Option α) (rep : FixCfg → α) (vt : String)
+    (txt : Cell → Str)
     (vs : List β) (f : Fixer) (φ : β → Cell) (ψ : β → α) (h : ∀ v ∈ vs, cellFn (φ v) = some (ψ v)) :
-    parseWith cellFn rep vt (vs.map φ) f = (vs.map ψ, f) := by
+    parseWith cellFn rep vt txt (vs.map φ) f = (vs.map ψ, f) := by
   induction vs with
   | nil => rfl
   | cons v vs ih =>
@@ -708,7 +729,12 @@ theorem parseColumn_wf (ext : Ext) (fi : Int → Str) (c : Column) (f : Fixer)
     apply List.map_congr_left
     intro v hv
     have := List.all_eq_true.1 hk v hv
-    cases v <;> simp [Spec.isText] at this <;> rfl
+    cases v with
+    | text s =>
+      have hs : s.getLast? ≠ some '\x00' := by simpa [Spec.isText] using this
+      show rstripNul s = s
+      exact C02.rstripNul_id s hs
+    | _ => simp [Spec.isText] at this
   · rw [if_neg h1] at hk
     rw [if_neg h1, if_neg h1]
     by_cases h2 : c.unit = "onoff".toList
@@ -775,8 +801,9 @@ end Spec
 /-- **well-formed table** (DESIGN §3 clauses 1–5 as far as the JSON trip needs them): the name does not end in
     `*`; destinations: a non-empty list of pairwise distinct, non-empty, blank-free tokens; column names pairwise
     distinct, not blank, equal to their own `strip`; units equal to their own `strip` and matching the kind of
-    their values (text / onoff / datetime / anything else = numbers); no missing datetime, one UTC offset per
-    datetime column; all columns of one length -/
+    their values (text not ending in NUL / onoff / datetime / anything else = numbers: floats, or integers below
+    2^53 in magnitude);
+    no missing datetime, one UTC offset per datetime column; all columns of one length -/
 def WF (t : TableVal) : Prop :=
   t.name.getLast? ≠ some '*' ∧
   t.destinations ≠ [] ∧ t.destinations.Nodup ∧
@@ -1039,6 +1066,22 @@ example :
     some [.text ["é ".toList, []], .num ["1.5".toList, "nan".toList], .num ["3.0".toList, "-1.0".toList],
        .onoff [true, false], .dt ["2020-01-02T03:04:05.000006".toList, "2020-01-02T03:04:05.000006".toList]] := by
   decide
+
+/-- **why integers must stay below 2^53**: 2^53 + 1 is not a float64.  `bigTable` violates `WF` in that clause
+    only (with 2^53 − 1 in its place it is well formed), and with CPython's `repr(float(2**53 + 1))` the model
+    hands back the float of a *different* integer, 2^53 -/
+def bigTable (i : Int) : TableVal := ⟨"t".toList, ["a".toList], false, [⟨"n".toList, "-".toList, [.int i]⟩]⟩
+
+def cpythonFi (i : Int) : Str :=
+  if i = 9007199254740993 then "9007199254740992.0".toList else intToStr i ++ ".0".toList
+
+example : ¬ WF (bigTable 9007199254740993) ∧ WF (bigTable 9007199254740991) ∧
+    Codec exampleExt cpythonFi (bigTable 9007199254740993) := by decide
+
+example :
+    (match toTable exampleExt cpythonFi (Spec.tableJson (bigTable 9007199254740993)) with
+     | .ok p => some p.columns
+     | .error _ => none) = some [.num ["9007199254740992.0".toList]] := by decide
 
 /-- **why missing datetimes are excluded**: a NaT travels as `null`, reaches `_parse_datetime_column` as an
     empty cell, the strict fixer counts it and `json_data_to_table` raises ValueError -/
